@@ -15,7 +15,9 @@
                             [checkout_error] (Idle), [ban_error] (Idle, error_count+1), [query], [transaction]
     src/stats/server.rs     [ServerStats]: state Login|Active|Tested|Idle, counters, bytes; every counter update is
                             mirrored into the AddressStats of the connection's address ([address.stats])
-    src/stats/address.rs    [AddressStats.total.*]: fetch_add only                                  = [atot]
+    src/stats/address.rs    [AddressStats.total.*]: fetch_add only; [current.*], [averages.*]        = [atot]
+    src/stats.rs:86-116     [Collector::collect]: every 15 s (first tick immediately) per address that has a
+                            registered server: [update_averages()], [reset_current_counts()]         = [PeriodEnd]
     src/stats/pool.rs:42-95 [PoolStats::construct_pool_lookup]: one pass over the client registry and one over the
                             server registry, bucketed by (pool_name, username)                    = [show_pools]
     src/admin.rs:149-248    [show_lists]: free/used clients = registry rows Idle/Active, same for servers = [show_lists]
@@ -100,7 +102,10 @@ Record server : Type := mkS {
   s_xact : nat; s_query : nat; s_sent : nat; s_recv : nat }.
 
 (** AddressStats.total (the count-valued fields). *)
-Record atot : Type := mkA { a_xact : nat; a_query : nat; a_sent : nat; a_recv : nat; a_err : nat }.
+Record atot : Type := mkA {
+  a_xact : nat; a_query : nat; a_sent : nat; a_recv : nat; a_err : nat;        (* AddressStats.total: SHOW STATS total_* *)
+  c_xact_ : nat; c_query_ : nat; c_sent_ : nat; c_recv_ : nat; c_err_ : nat;   (* AddressStats.current: this period so far *)
+  v_xact : nat; v_query : nat; v_sent : nat; v_recv : nat; v_err : nat }.      (* AddressStats.averages: SHOW STATS avg_* *)
 
 (** Static configuration: address id -> (pool id, is replica).  Pool ids start at 1. *)
 Definition cfg : Type := list (nat * bool).
@@ -116,7 +121,7 @@ Record st : Type := mkSt {
 
 Definition c0 : client := mkC 0 PNone false false None CIdle 0 0 0.
 Definition s0 : server := mkS 0 false false None SLogin 0 0 0 0.
-Definition a0 : atot := mkA 0 0 0 0 0.
+Definition a0 : atot := mkA 0 0 0 0 0 0 0 0 0 0 0 0 0 0 0.
 Definition init : st := mkSt (fun _ => c0) [] (fun _ => s0) [] [] [] (fun _ => a0).
 
 Definition upd {A} (f : nat -> A) (k : nat) (v : A) : nat -> A := fun x => if x =? k then v else f x.
@@ -137,6 +142,7 @@ Definition cancel_stats_id : nat := 0.
 Inductive op : Type :=
 | Login (c p : nat) (ok : bool)
 | CancelConn (pid : nat)
+| PeriodEnd
 | HandleStart (c : nat)
 | CheckoutStart (c : nat)
 | CandidateTry (c : nat)
@@ -167,6 +173,7 @@ Definition enabled (cf : cfg) (t : st) (o : op) : bool :=
   match o with
   | Login c _ _ => is_phase (c_phase (cl t c)) PNone && negb (c =? cancel_stats_id)
   | CancelConn _ => true
+  | PeriodEnd => true
   | HandleStart c => is_phase (c_phase (cl t c)) PLogged
   | CheckoutStart c => let x := cl t c in
       is_phase (c_phase x) PHandle && negb (c_chk x) && is_none (c_held x) && negb (c_pool x =? 0)
@@ -192,8 +199,20 @@ Definition set_cstate (x : client) (s : cstate) : client :=
 Definition set_sstate (y : server) (s : sstate) (h : option nat) : server :=
   mkS (s_addr y) (s_seen y) (s_live y) h s (s_xact y) (s_query y) (s_sent y) (s_recv y).
 
+(** address.rs: every [*_add] / [error()] does [total.fetch_add] and [current.fetch_add]. *)
 Definition a_add (x : atot) (dx dq ds dr de : nat) : atot :=
-  mkA (a_xact x + dx) (a_query x + dq) (a_sent x + ds) (a_recv x + dr) (a_err x + de).
+  mkA (a_xact x + dx) (a_query x + dq) (a_sent x + ds) (a_recv x + dr) (a_err x + de)
+      (c_xact_ x + dx) (c_query_ x + dq) (c_sent_ x + ds) (c_recv_ x + dr) (c_err_ x + de)
+      (v_xact x) (v_query x) (v_sent x) (v_recv x) (v_err x).
+
+(** End of a statistics period for one address (stats.rs Collector, every STAT_PERIOD = 15 s, the first tick at
+    once): [update_averages()] (average = current / 15 for the count-valued fields) and [reset_current_counts()]
+    (current := 0).  The totals are not touched. *)
+Definition stat_period_s : nat := 15.
+Definition period_end (x : atot) : atot :=
+  mkA (a_xact x) (a_query x) (a_sent x) (a_recv x) (a_err x) 0 0 0 0 0
+      (c_xact_ x / stat_period_s) (c_query_ x / stat_period_s) (c_sent_ x / stat_period_s)
+      (c_recv_ x / stat_period_s) (c_err_ x / stat_period_s).
 Definition b2n (b : bool) : nat := if b then 1 else 0.
 
 (** The task of client [c] ends ([Drop for Client] runs in all three cases): it leaves [handle()],
@@ -210,6 +229,8 @@ Definition exit_client (t : st) (c : nat) (unreg : bool) (aerr : nat) : st :=
              | None => at_ t end in
   mkSt (upd (cl t) c x') (cids t) sv' (sids t) (if unreg then reg_del c (creg t) else creg t) (sreg t) at'.
 
+Definition has_server (t : st) (a : nat) : bool := existsb (fun s => s_addr (sv t s) =? a) (sreg t).
+
 Definition apply (cf : cfg) (t : st) (o : op) : st :=
   match o with
   | Login c p ok =>
@@ -218,6 +239,10 @@ Definition apply (cf : cfg) (t : st) (o : op) : st :=
   | CancelConn pid =>
       (* no register; every exit runs Drop for Client: disconnect() of the pseudo-client's OWN stats id *)
       mkSt (cl t) (cids t) (sv t) (sids t) (reg_del cancel_stats_id (creg t)) (sreg t) (at_ t)
+  | PeriodEnd =>
+      (* the Collector walks SERVER_STATS: only addresses that have a registered server connection are updated *)
+      mkSt (cl t) (cids t) (sv t) (sids t) (creg t) (sreg t)
+           (fun a => if has_server t a then period_end (at_ t a) else at_ t a)
   | HandleStart c =>
       let x := cl t c in
       mkSt (upd (cl t) c (mkC (c_pool x) PHandle false false None CIdle (c_xact x) (c_query x) (c_err x))) (cids t)
@@ -344,7 +369,7 @@ Definition opt_n (o : option nat) : nat := match o with Some x => S x | None => 
 
 (** SHOW CLIENTS rows: (id, pool, state, xact, query, errors); SHOW SERVERS rows: (id, address, state,
     holder+1 or 0, xact, query, sent, recv); SHOW POOLS for pools 1..np; SHOW LISTS; SHOW STATS for
-    addresses 0..|cf|-1: (xact, query, sent, recv, errors). *)
+    addresses 0..|cf|-1: (xact, query, sent, recv, errors) totals, then the same five averages. *)
 Definition obs_clients (t : st) : list (list nat) :=
   map (fun c => let x := cl t c in [c; c_pool x; cstate_n (c_state x); c_xact x; c_query x; c_err x]) (creg t).
 Definition obs_servers (t : st) : list (list nat) :=
@@ -356,7 +381,8 @@ Definition obs_pools (cf : cfg) (t : st) (np : nat) : list (list nat) :=
 Definition obs_lists (t : st) : list nat :=
   match show_lists t with (a, b, c, d) => [a; b; c; d] end.
 Definition obs_stats (cf : cfg) (t : st) : list (list nat) :=
-  map (fun a => let x := at_ t a in [a; a_xact x; a_query x; a_sent x; a_recv x; a_err x]) (seq 0 (length cf)).
+  map (fun a => let x := at_ t a in [a; a_xact x; a_query x; a_sent x; a_recv x; a_err x;
+                                     v_xact x; v_query x; v_sent x; v_recv x; v_err x]) (seq 0 (length cf)).
 Definition observe (cf : cfg) (np : nat) (t : st) :=
   (obs_clients t, obs_servers t, obs_pools cf t np, obs_lists t, obs_stats cf t).
 
@@ -376,6 +402,11 @@ Definition exit_panic_old (t : st) (c : nat) : st := exit_client t c false 0.
     process id it was asked to cancel: dropping it unregisters the TARGET. *)
 Definition cancel_conn_bad (t : st) (pid : nat) : st :=
   mkSt (cl t) (cids t) (sv t) (sids t) (reg_del pid (creg t)) (sreg t) (at_ t).
+(** Seeded defect class: [reset_current_counts()] storing 0 into a TOTAL instead of the current counter. *)
+Definition period_end_bad (x : atot) : atot :=
+  mkA (a_xact x) (a_query x) (a_sent x) (a_recv x) 0 0 0 0 0 (c_err_ x)
+      (c_xact_ x / stat_period_s) (c_query_ x / stat_period_s) (c_sent_ x / stat_period_s)
+      (c_recv_ x / stat_period_s) (c_err_ x / stat_period_s).
 (** Before /repo b38aae6 [waiting()] ran once, before the candidate loop: a later iteration started in
     whatever state the failed candidate had left. *)
 Definition candidate_try_old (t : st) (c : nat) : st :=
